@@ -368,3 +368,33 @@ func Main(m *testing.M) {
 	Flush()
 	os.Exit(code)
 }
+
+// Pct draws an (almost) uniform integer in 0..99. rapid's integer generators are biased
+// towards small values and range bounds (about 30% of IntRange(0,99) draws are below 4),
+// which is wrong for weighted choices; fair coin flips are not biased, and still shrink
+// towards 0.
+func Pct(t *rapid.T, label string) int {
+	v := 0
+	for i := 0; i < 10; i++ {
+		if rapid.Bool().Draw(t, label) {
+			v |= 1 << i
+		}
+	}
+	return v * 100 / 1024
+}
+
+// Pick draws an (almost) uniform index in 0..n-1 (n <= 1024).
+func Pick(t *rapid.T, n int, label string) int {
+	v := 0
+	for i := 0; i < 10; i++ {
+		if rapid.Bool().Draw(t, label) {
+			v |= 1 << i
+		}
+	}
+	return v * n / 1024
+}
+
+// From draws an (almost) uniform element of s.
+func From[T any](t *rapid.T, s []T, label string) T {
+	return s[Pick(t, len(s), label)]
+}
